@@ -15,7 +15,6 @@ ASSUMPTIONS = [
     "the image file is cut (the .bin for CDDA; the cue sheet itself is not cut)",
     "a path that exists only in the truncated run (one half of a left/right pair whose partner is lost) is compared with that sample's own audio",
     "'lies before the cut' is decided on a superset of the bytes the file needs: partition header + allocation table, every sector of its directory, every sector/cluster of its own chain (both halves for a pair); Roland: all metadata areas precede the data",
-    "CDDA images are not run through the Lean model end to end (cue parsing and track windows are tied by C17/C03)",
 ]
 
 riff_ok = None
@@ -234,7 +233,7 @@ def run_subject(rep: Report, ctx, subj: Subject, cases, ncuts, tie: bool, tag: s
             rep.feat("cuts_" + subj.kind)
             detail = {"image": tag, "kind": subj.kind, "cut": cut, "size": len(whole), "exported": exported[:12], "error": err}
             judge(rep, subj, cut, files, exported, err, detail)
-            if tie and ctx.model_available and subj.kind != "cdda":
+            if tie and ctx.model_available:
                 res, _, _, _ = FA.export_str(main)
                 ls = FA.ls_str(main, "")
                 out = run_driver([f"akai all {main} {FA.hxs('')}"], timeout=900)[0].split(" || ")
